@@ -42,6 +42,7 @@ public:
   [[nodiscard]] bool operator!=(const LexicalTerm& t2) const noexcept { return !(*this == t2); }
 
   void UpdateFrom(const EntityTermContext& cntxt);
+  void DropResolved() noexcept;
 
   [[nodiscard]] bool MatchStr(const std::string& str) const;
 
